@@ -10,6 +10,7 @@ def dispatch (comp : String) (j : Json) : Except String Json :=
   | "solver" => solverCmd j
   | "str" => strCmd j
   | "net" => netCmd j
+  | "nettraj" => netTrajCmd j
   | _ => .error s!"unknown component {comp}"
 
 partial def loop (h : IO.FS.Stream) (out : IO.FS.Stream) : IO Unit := do
